@@ -152,6 +152,9 @@ func (e *seqEnv) unregister(i int) {
 
 // dispatch issues one Dispatch and compares what was handed over with the model.
 func (e *seqEnv) dispatch(m *sentMsg, msg *pb.XuperMessage, label string, stream p2p.Stream) {
+	// every receipt is a fresh object decoded from the wire: hand the dispatcher a copy, so that a
+	// repeat does not inherit whatever handling the first copy did to it
+	msg = proto.Clone(msg).(*pb.XuperMessage)
 	t0 := time.Now()
 	err, pn := safeDispatch(e.d, msg, stream)
 	if pn != nil {
